@@ -75,7 +75,11 @@ def draw_t3(rng):
             pk = max(abs(S.rate_at(r, a, j, k2)) for k2 in {1, T, max(1, min(T, (-a) // j if j else 1))})
             if pk < S.MM1:
                 r += rng.choice([-1, 1]) * rng.randint(0, S.MM1 - pk)
-        if abs(r) <= S.MM1 and abs(a) <= S.MM1 and abs(j) <= S.MM1 and S.in_domain(r, a, j, T):
+        if rng.random() < 0.12:
+            # pin the first- or last-tick rate to an edge of the signed 32-bit range (incl. -2^31 itself)
+            k2 = rng.choice([1, T])
+            r += rng.choice([-S.M, -S.M, -S.M + 1, S.MM1, S.MM1 - 1]) - S.rate_at(r, a, j, k2)
+        if abs(r) <= S.MM1 and abs(a) <= S.MM1 and abs(j) <= S.MM1 and S.in_domain(r, a, j, T, lo=-S.M):
             return T, r, a, j, S.rand_acc(rng)
     return 1, 0, 0, 0, 0
 
